@@ -80,6 +80,7 @@ func C01(p *core.Program, r *core.Report) {
 	r.Min("codec pairs", 15)
 	checkCodecPairs(p, r, pairs, map[string]bool{"CRC": true, "Version": true})
 	checkOptionalGroupGuards(p, r)
+	checkCRCEncoders(p, r) // the serialiser writes a freshly computed CRC over exactly what it wrote (shared with C03)
 	checkSerialisationDeterminism(p, r)
 	checkBlockOrderWriters(p, r)
 }
